@@ -34,19 +34,6 @@ theorem cassert_on (cond : Bool) (c : Conv α) (h : c.asserts = true) :
   rw [this]
   cases cond <;> simp [h]
 
-/-- `Quantity.unprefixed` always succeeds. -/
-theorem exec_unprefixedQty (q : Qty α) (c : Conv α) :
-    CM.exec (unprefixedQty q) c =
-      (.ok { mag := Mag.mul (Pfx.value (c.st.unit! q.unit).pfx) q.mag, unit := (c.st.unprefixedUnit q.unit).2 },
-       { c with st := (c.st.unprefixedUnit q.unit).1 }) := by
-  unfold unprefixedQty
-  rw [exec_bind]
-  unfold quantifyUnit
-  rw [exec_bind, exec_getSt]
-  simp only
-  rw [exec_bind, exec_liftSt]
-  simp only [exec_pure]
-
 /-- `Quantity.__eq__` never lets ConversionNotFound escape: it answers NotImplemented. -/
 theorem eqCore_no_notFound (a b : Qty α) (c : Conv α) :
     (CM.exec (Qty.eqCore a b) c).1 ≠ .error .notFound := by
